@@ -297,6 +297,8 @@ def invalid_cases():
     out.append(('filesystem(explicit)+key', ctor(ephemeral=False, private_key='RSA1024:x')))
     out.append(('filesystem+single-hop', ctor(hidden_service_dir='/tmp/x', single_hop=True)))
     out.append(('stealth_auth+auth', ctor(hidden_service_dir='/tmp/x', stealth_auth=['a'], auth=AuthStealth(['b']))))
+    out.append(('public_port-None', lambda r, c: TCPHiddenServiceEndpoint(r, c, None)))
+    out.append(('public_port-not-a-number', lambda r, c: TCPHiddenServiceEndpoint(r, c, 'http')))
     p = TCPHiddenServiceEndpointParser()
     out.append(('string:dir+key', lambda r, c: p.parseStreamServer(r, '80', hiddenServiceDir='/tmp/x', privateKey='RSA1024:x')))
     out.append(('string:bad-singleHop', lambda r, c: p.parseStreamServer(r, '80', controlPort='9051', singleHop='maybe')))
